@@ -86,6 +86,7 @@ Definition hop_wf (h : hop) : bool :=
   | HSeq os => forallb op_wf os
   | HScaleDown _ k _ then_ => (0 <? k) && forallb op_wf then_
   | HFail o _ => op_wf o
+  | HRaise _ => true
   end.
 
 (* the same without the condition on k (the invariant survives every k) *)
@@ -95,6 +96,7 @@ Definition hop_wf0 (h : hop) : bool :=
   | HSeq os => forallb op_wf os
   | HScaleDown _ _ _ then_ => forallb op_wf then_
   | HFail o _ => op_wf o
+  | HRaise _ => true
   end.
 
 Lemma hop_wf_wf0 (h : hop) : hop_wf h = true -> hop_wf0 h = true.
@@ -114,13 +116,14 @@ Qed.
 
 Lemma hstep_sinv (st : store) (h : hop) : SInv st -> hop_wf0 h = true -> SInv (fst (hstep st h)).
 Proof.
-  intros HS Hwf. destruct h as [o|os|i k meta then_|o e]; cbn [hstep]; cbn [hop_wf0] in Hwf.
+  intros HS Hwf. destruct h as [o|os|i k meta then_|o e|e]; cbn [hstep]; cbn [hop_wf0] in Hwf.
   - now apply step_inv.
   - now apply hseq_sinv.
   - pose proof (store_scale_down_sinv st i k meta HS) as H1.
     destruct (store_scale_down st i k meta) as [st1 x]. cbn [fst] in H1.
     destruct x; try (now apply hseq_sinv); exact H1.
   - pose proof (step_inv st o HS Hwf) as H1. destruct (step st o) as [st1 x]. exact H1.
+  - exact HS.
 Qed.
 
 Lemma run_h_sinv (hs : list hop) (st : store) :
@@ -209,13 +212,14 @@ Qed.
 
 Lemma hstep_R (st : store) (h : hop) : SR st -> SR (fst (hstep st h)).
 Proof.
-  intros HS. destruct h as [o|os|i k meta then_|o e]; cbn [hstep].
+  intros HS. destruct h as [o|os|i k meta then_|o e|e]; cbn [hstep].
   - now apply step_R.
   - now apply hseq_R.
   - pose proof (store_scale_down_R st i k meta HS) as H1.
     destruct (store_scale_down st i k meta) as [st1 x]. cbn [fst] in H1.
     destruct x; try (now apply hseq_R); exact H1.
   - pose proof (step_R st o HS) as H1. destruct (step st o) as [st1 x]. exact H1.
+  - exact HS.
 Qed.
 
 Lemma run_h_R (hs : list hop) (st : store) : SR st -> SR (fst (run_h st hs)).
@@ -270,7 +274,7 @@ Definition ex_hops : list hop :=
    HSeq [OScale 1 2; OQuantNorm 1 [12; 8] [24; 12; 6]];
    HScaleDown 1 4 (Some 0%nat) [ONormalise 1];
    HScaleDown 2 5 (Some 1%nat) [OReadAbs 2];
-   HFail (OReadRel 1) ValueErr;
+   HFail (OReadRel 1) ValueErr; HRaise ValueErr;
    HSeq [OReadAbs 7; ONew];
    HScaleDown 2 1 (Some 2%nat) []].
 
@@ -280,7 +284,7 @@ Proof. vm_compute. reflexivity. Qed.
 Example ex_hops_run :
   let res := run_h [] ex_hops in
   map (fun x => match x with OErr e => Some e | _ => None end) (snd res) =
-    [None; None; None; None; None; None; Some OutOfModel; Some ValueErr; Some OutOfModel; None] /\
+    [None; None; None; None; None; None; Some OutOfModel; Some ValueErr; Some ValueErr; Some OutOfModel; None] /\
   map (fun s => (s_abs_stale s, s_rel_stale s, dur_rel (s_rel s))) (fst res) =
     [(false, false, 72); (false, false, 72); (true, false, 96)] /\
   forallb inv_b (fst res) = true.
